@@ -84,11 +84,11 @@ func init() {
 		},
 	})
 	def("C04", &propertyDef{
-		Decides:    "merge coverage (A4): every attribute below services/networks/volumes/secrets/configs that the schema lets be spelled as list-or-mapping or string-or-list has a converting merger; every uniqueItems list is de-duplicated after the append (unicity indexer, mapping-producing or replacing merger); command, entrypoint and healthcheck.test are bound to the replacing merger; each indexer has an arm for every item kind. The two tables are exclusive and have no dead rows (A1, A2). Stage order Apply(!reset) < Merge < EnforceUnicity < validate < Canonical < EnforceUnicity holds on every path and each stage's error is propagated (PIPE); every YAML document of a file runs through the pipeline (MULTIDOC).",
+		Decides:    "merge coverage (A4): every attribute below services/networks/volumes/secrets/configs that the schema lets be spelled as list-or-mapping or string-or-list has a converting merger; every uniqueItems list is de-duplicated after the append (unicity indexer, mapping-producing or replacing merger); command, entrypoint and healthcheck.test are bound to the replacing merger; each indexer has an arm for every item kind, and builds its key with verbs that print every admissible YAML type of a field alike (FMTVERB). The two tables are exclusive and have no dead rows (A1, A2). Stage order Apply(!reset) < Merge < EnforceUnicity < validate < Canonical < EnforceUnicity holds on every path and each stage's error is propagated (PIPE); every YAML document of a file runs through the pipeline (MULTIDOC).",
 		NotDecided: "the merged values themselves; `!reset` inside sequences; that what a later file does not mention is preserved.",
-		Rules:      []string{"A4", "A1", "A2", "PIPE", "MULTIDOC", "TREEPATH", "TREE"},
+		Rules:      []string{"A4", "FMTVERB", "A1", "A2", "PIPE", "MULTIDOC", "TREEPATH", "TREE"},
 		Run: func(c *rules.Ctx) []report.Obligation {
-			return cat(c.A4("A4"), c.TREEPATH("TREEPATH"), c.TREE("TREE", "LOAD"), c.A1("A1", rules.TMerge, rules.TUnique), c.A2("A2", rules.TMerge, rules.TUnique),
+			return cat(c.A4("A4"), c.FMTVERB("FMTVERB", "override"), c.TREEPATH("TREEPATH"), c.TREE("TREE", "LOAD"), c.A1("A1", rules.TMerge, rules.TUnique), c.A2("A2", rules.TMerge, rules.TUnique),
 				c.PIPE("PIPE", stageIn("Apply", "override.Merge", "override.EnforceUnicity", "schema.Validate", "transform.Canonical", "loader.OmitEmpty")), c.MULTIDOC("MULTIDOC"))
 		},
 	})
